@@ -228,6 +228,461 @@ def r11_5(ctx):
     ctx.floor(rid, needed, 1000, "bounds that need a check")
 
 
+class _UnknownForm(Exception):
+    pass
+
+
+def _sign_states(signed):
+    """The abstract states of a native quotient x / y with y != 0: the signs of the two operands, whether the division is
+    exact (x % y == 0), and whether the divisor is -1 (the only divisor the code singles out)."""
+    out = []
+    for sx in ((-1, 0, 1) if signed else (0, 1)):
+        for sy in ((-1, 1) if signed else (1,)):
+            for exact in (True, False):
+                if sx == 0 and not exact:
+                    continue
+                for unit in ((True, False) if sy < 0 else (False,)):
+                    if unit and not exact:
+                        continue
+                    out.append({"sx": sx, "sy": sy, "exact": exact, "unit": unit})
+    return out
+
+
+def _quotient_paths(f, st, xn, yn):
+    """Interpret the structured body of f on the abstract state st. Yields (terminal node, kind, trace) for every path:
+    conditions on x, y and the remainder are decided by st, anything else (policy constants, the rounding direction)
+    is followed both ways."""
+    rem = set()
+
+    def is_rem(e):
+        e = f.deref(e)
+        if e is None or e["k"] not in ("binop", "ocall") or e.get("op") != "%":
+            return False
+        a, b = [f.text(f.deref(c)).strip() for c in e["c"][-2:]]
+        return a == xn and b == yn
+
+    def val(e):
+        """sign of an expression: -1/0/1, 'm1' for the literal -1, or None."""
+        e = f.deref(e)
+        t = f.text(e).replace(" ", "")
+        if t == "0":
+            return 0
+        if t == "-1":
+            return "m1"
+        return None
+
+    def is_bool(e):
+        e = f.deref(e)
+        while e is not None and e["k"] == "paren":
+            e = f.deref(e["c"][0])
+        return e is not None and (e["k"] == "bool" or (e["k"] in ("binop", "ocall") and e.get("op") in ("==", "!=", "<", ">", "<=", ">=", "&&", "||")) or (e["k"] == "unop" and e.get("op") == "!"))
+
+    def ev(e):
+        e = f.deref(e)
+        k = e["k"]
+        t = f.text(e).replace(" ", "")
+        if k == "paren":
+            return ev(e["c"][0])
+        if k == "cond":
+            c, a, b = e["c"][-3:]
+            out = set()
+            for cv in ev(c):
+                out |= ev(a if cv else b)
+            return out
+        if k in ("binop", "ocall") and e.get("op") == ",":
+            return ev(e["c"][-1])
+        if k == "bool":
+            return {t == "true"}
+        if k in ("binop", "ocall") and e.get("op") == "&&":
+            a, b = e["c"][-2:]
+            out = set()
+            for av in ev(a):
+                out |= ev(b) if av else {False}
+            return out
+        if k in ("binop", "ocall") and e.get("op") == "||":
+            a, b = e["c"][-2:]
+            out = set()
+            for av in ev(a):
+                out |= {True} if av else ev(b)
+            return out
+        if k == "unop" and e.get("op") == "!":
+            return {not v for v in ev(e["c"][0])}
+        if k in ("binop", "ocall") and e.get("op") in ("==", "!=") and all(is_bool(c) for c in e["c"][-2:]):
+            a, b = e["c"][-2:]
+            return {(av == bv) == (e["op"] == "==") for av in ev(a) for bv in ev(b)}
+        if k in ("binop", "ocall") and e.get("op") in ("==", "!=", "<", ">", "<=", ">="):
+            a, b = [f.deref(c) for c in e["c"][-2:]]
+            an, lit = f.text(a).strip(), val(b)
+            if lit is None:
+                raise _UnknownForm("comparison `%s` at line %s" % (f.text(e), e.get("l")))
+            if an == yn:
+                if lit == "m1":
+                    r = st["unit"]
+                    if e["op"] == "==":
+                        return {r}
+                    if e["op"] == "!=":
+                        return {not r}
+                    raise _UnknownForm("ordering of the divisor against -1 at line %s" % e.get("l"))
+                sv = st["sy"]
+            elif an == xn:
+                if lit == "m1":
+                    raise _UnknownForm("dividend compared with -1 at line %s" % e.get("l"))
+                sv = st["sx"]
+            elif an in rem:
+                if lit == "m1":
+                    raise _UnknownForm("remainder compared with -1 at line %s" % e.get("l"))
+                sv = 0 if st["exact"] else st["sx"]     # x % y has the sign of x
+            else:
+                raise _UnknownForm("comparison on `%s` at line %s" % (an, e.get("l")))
+            return {{"==": sv == 0, "!=": sv != 0, "<": sv < 0, ">": sv > 0, "<=": sv <= 0, ">=": sv >= 0}[e["op"]]}
+        if k == "ref" and an_policy(t):
+            return {True, False}
+        if k in ("call", "mcall") and f.call_name(e) in ("round_not_requested", "round_down", "round_up", "round_ignore", "round_direct", "round_inverse"):
+            return {True, False}
+        raise _UnknownForm("condition `%s` at line %s" % (f.text(e)[:40], e.get("l")))
+
+    def an_policy(t):
+        return t.startswith("check_") or "Policy::" in t
+
+    def stmts(n):
+        n = f.deref(n)
+        return [f.deref(c) for c in n["c"]] if n["k"] == "block" else [n]
+
+    def run(todo, trace, computed):
+        """todo: list of statements still to execute (a continuation)."""
+        while todo:
+            s, todo = todo[0], todo[1:]
+            k = s["k"]
+            if k == "block":
+                todo = stmts(s) + todo
+            elif k == "if":
+                cs = [f.deref(c) for c in s["c"]]
+                if len(cs) != 5 or cs[0] is not None or cs[1] is not None:
+                    raise _UnknownForm("if with an initialiser or a condition variable at line %s" % s.get("l"))
+                cond, then, els = cs[2], cs[3], cs[4]
+                for v in sorted(ev(cond)):
+                    br = then if v else els
+                    yield from run((stmts(br) if br is not None else []) + todo, trace + [(cond.get("l"), f.text(cond)[:40], v)], computed)
+                return
+            elif k == "return":
+                yield s, trace, computed
+                return
+            elif k == "assign" and f.text(f.deref(s["c"][0])).strip() == "to":
+                r = f.deref(s["c"][1])
+                if r["k"] in ("binop", "ocall") and r.get("op") == "/":
+                    computed = True
+                else:
+                    raise _UnknownForm("`to` assigned `%s` at line %s" % (f.text(r)[:30], s.get("l")))
+            elif k == "decl":
+                for v in s["c"]:
+                    v = f.deref(v)
+                    if v["k"] == "var" and v.get("c") and is_rem(v["c"][-1]):
+                        rem.add(v.get("name") or f.text(v).split()[-1])
+                    elif v["k"] == "var":
+                        raise _UnknownForm("local `%s` at line %s" % (f.text(v)[:30], v.get("l")))
+            else:
+                raise _UnknownForm("statement `%s` at line %s" % (f.text(s)[:40], s.get("l")))
+        raise _UnknownForm("a path falls off the end of %s" % f.name)
+
+    yield from run(stmts(f.ast), [], False)
+
+
+def r11_6(ctx):
+    rid = "R11.6"
+    ctx.rule(rid, "the correction after a truncating native division points the right way: C++ `x / y` truncates towards zero, so the exact quotient differs from the stored one by (x % y) / y — above it when the remainder and the divisor have the same sign, below it when they differ, equal when the remainder is zero; the remainder has the sign of the DIVIDEND. Each div_*_int primitive of checked_int_inlines.hh (a native quotient followed by the remainder of the same operands) is interpreted on the finite sign abstraction of its operands — sign of x, sign of y, exact or not, y == -1 or not; policy constants and the rounding direction followed both ways — and on every path the terminal must agree with the abstract error: round_lt_int* (exact < stored) only when the error is negative, round_gt_int* only when positive, V_EQ only when it is zero, V_GE / V_LE only when it cannot be negative / positive")
+    fx = ctx.extract([F.driver_unit("all_headers.cc", file_re=r"checked_int_inlines\.hh")])
+    seen = set()
+    n = 0
+    for f in fx.functions:
+        if not f.flag("pattern") or (f.relfile, f.line) in seen:
+            continue
+        quo = None
+        for a in f.walk():
+            if a["k"] == "assign" and f.text(f.deref(a["c"][0])).strip() == "to":
+                r = f.deref(a["c"][1])
+                if r["k"] in ("binop", "ocall") and r.get("op") == "/":
+                    quo = [f.text(f.deref(c)).strip() for c in r["c"][-2:]]
+        if quo is None:
+            continue
+        xn, yn = quo
+        has_rem = any(x["k"] in ("binop", "ocall") and x.get("op") == "%" and [f.text(f.deref(c)).strip() for c in x["c"][-2:]] == quo for x in f.walk())
+        if not has_rem:
+            continue          # idiv_*: the truncated quotient IS the result
+        seen.add((f.relfile, f.line))
+        if "unsigned" in f.name:
+            signed = False
+        elif "signed" in f.name:
+            signed = True
+        else:
+            raise F.AnalysisBroken("R11.6: cannot tell whether %s (%s) divides signed or unsigned operands" % (f.name, f.where()))
+        n += 1
+        paths = 0
+        bad = {}
+        try:
+            for st in _sign_states(signed):
+                err = 0 if st["exact"] else st["sx"] * st["sy"]
+                for ret, trace, computed in _quotient_paths(f, st, xn, yn):
+                    paths += 1
+                    e = f.deref(ret["c"][0]) if ret.get("c") else None
+                    t = f.text(e).replace(" ", "") if e is not None else ""
+                    cn = f.call_name(e) if e is not None and e["k"] in ("call", "mcall") else None
+                    if not computed:
+                        continue      # returned before dividing: another primitive's result
+                    want = None
+                    if cn and cn.startswith("round_lt_int"):
+                        want = (err < 0, "round_lt_int* says the exact quotient is BELOW the stored one")
+                    elif cn and cn.startswith("round_gt_int"):
+                        want = (err > 0, "round_gt_int* says the exact quotient is ABOVE the stored one")
+                    elif t == "V_EQ":
+                        want = (err == 0, "V_EQ says the stored quotient is exact")
+                    elif t == "V_GE":
+                        want = (err >= 0, "V_GE says the exact quotient is not below the stored one")
+                    elif t == "V_LE":
+                        want = (err <= 0, "V_LE says the exact quotient is not above the stored one")
+                    elif t == "V_LGE":
+                        want = (True, "")
+                    else:
+                        raise _UnknownForm("terminal `%s` at line %s" % (t[:30], ret.get("l")))
+                    if not want[0]:
+                        sg = {-1: "negative", 0: "zero", 1: "positive"}
+                        bad.setdefault(ret.get("l"), (ret, "%s, but for %s %s, %s %s and a non-zero remainder the truncation error is %s (path: %s)" % (
+                            want[1], xn, sg[st["sx"]], yn, sg[st["sy"]], sg[err] if not st["exact"] else "zero",
+                            "; ".join("line %s `%s` %s" % (l, c, "true" if v else "false") for l, c, v in trace if c and ("%s" % c)[0] not in "c"))))
+        except _UnknownForm as ex:
+            raise F.AnalysisBroken("R11.6: %s: %s — the sign interpretation does not know this form" % (f.name, ex))
+        ctx.count(rid, "abstract paths interpreted", paths)
+        inst = "%s (%s operands)" % (f.name, "signed" if signed else "unsigned")
+        if bad:
+            for l in sorted(bad):
+                ret, msg = bad[l]
+                ctx.violation(rid, "%s return at line %s" % (inst, l), f.where(ret), msg)
+        else:
+            ctx.ok(rid, inst, f.where())
+    ctx.floor(rid, n, 2, "native quotients corrected by their remainder")
+
+
+EXT_CMP = {"lt_ext": "lt", "le_ext": "le", "gt_ext": "gt", "ge_ext": "ge", "eq_ext": "eq", "ne_ext": "ne", "cmp_ext": "cmp"}
+_CLS = ("NAN", "MINF", "FIN", "PINF")
+_CLS_TXT = {"NAN": "NaN", "MINF": "-inf", "FIN": "finite", "PINF": "+inf"}
+
+
+def _ext_truth(op, cx, cy):
+    """The answer on the extended reals with an unordered NaN; 'NATIVE' when both operands are finite."""
+    if "NAN" in (cx, cy):
+        return {"lt": False, "le": False, "gt": False, "ge": False, "eq": False, "ne": True, "cmp": "VR_EMPTY"}[op]
+    if cx == "FIN" and cy == "FIN":
+        return "NATIVE"
+    rank = {"MINF": 0, "FIN": 1, "PINF": 2}
+    c = (rank[cx] > rank[cy]) - (rank[cx] < rank[cy])
+    return {"lt": c < 0, "le": c <= 0, "gt": c > 0, "ge": c >= 0, "eq": c == 0, "ne": c != 0, "cmp": {-1: "VR_LT", 0: "VR_EQ", 1: "VR_GT"}[c]}[op]
+
+
+def _ext_interpret(f, st, fns, depth=0):
+    """All values the comparison f can return on the abstract state st = {param: class}: True / False / 'VR_..' /
+    'NATIVE' (the comparison of the underlying type was asked). The CFG is walked; every condition is decided by st,
+    except ext_to_handle(v) on a finite v, which is followed both ways."""
+    if depth > 4:
+        raise _UnknownForm("recursion among the extended comparisons")
+    params = [p["n"] for p in f.params]
+
+    def cls_of(e):
+        e = f.deref(e)
+        t = f.text(e).strip()
+        if e["k"] == "ref" and t in st:
+            return st[t]
+        raise _UnknownForm("argument `%s` at line %s is not a parameter" % (t[:30], e.get("l")))
+
+    def ev(e):
+        e = f.deref(e)
+        k = e["k"]
+        if k == "paren":
+            return ev(e["c"][0])
+        if k == "bool":
+            return {f.text(e).strip() == "true"}
+        if k == "ref" and f.text(e).strip().startswith("VR_"):
+            return {f.text(e).strip()}
+        if k == "unop" and e.get("op") == "!":
+            return {v if v == "NATIVE" else (not v) for v in ev(e["c"][0])}
+        if k in ("binop", "ocall") and e.get("op") in ("&&", "||"):
+            a, b = e["c"][-2:]
+            out = set()
+            for av in ev(a):
+                if av == "NATIVE":
+                    raise _UnknownForm("native comparison inside a condition at line %s" % e.get("l"))
+                if (e["op"] == "&&") == bool(av):
+                    out |= ev(b)
+                else:
+                    out.add(bool(av))
+            return out
+        if k == "cond":
+            c, a, b = e["c"][-3:]
+            out = set()
+            for cv in ev(c):
+                out |= ev(a if cv else b)
+            return out
+        if k in ("call", "mcall"):
+            cn = f.call_name(e).lstrip("~")
+            args = f.call_args(e)
+            if cn in ("is_nan", "is_minf", "is_pinf") and len(args) == 1:
+                return {cls_of(args[0]) == {"is_nan": "NAN", "is_minf": "MINF", "is_pinf": "PINF"}[cn]}
+            if cn == "ext_to_handle" and len(args) == 1:
+                return {True} if cls_of(args[0]) != "FIN" else {True, False}
+            if cn in fns and len(args) == 2:
+                g = fns[cn]
+                gp = [p["n"] for p in g.params]
+                return _ext_interpret(g, {gp[0]: cls_of(args[0]), gp[1]: cls_of(args[1])}, fns, depth + 1)
+            if len(args) == 2:
+                if cls_of(args[0]) == "FIN" and cls_of(args[1]) == "FIN":
+                    return {"NATIVE"}
+                return {"NATIVE!"}       # the underlying comparison asked on a special value
+            raise _UnknownForm("call `%s` at line %s" % (f.text(e)[:30], e.get("l")))
+        raise _UnknownForm("expression `%s` at line %s" % (f.text(e)[:30], e.get("l")))
+
+    blocks = {b["id"]: b for b in f.cfg["b"]}
+    out = set()
+    seen_edges = set()
+
+    def walk(bid, depth_=0):
+        if depth_ > 200:
+            raise _UnknownForm("a loop in %s" % f.name)
+        b = blocks[bid]
+        for nid in b["e"]:
+            n = f.nodes.get(nid)
+            if n is not None and n["k"] == "return":
+                out.update(ev(n["c"][0]))
+                return
+        if "tc" in b:
+            for v in sorted(ev(f.nodes[b["tc"]]), key=str):
+                if v in ("NATIVE", "NATIVE!"):
+                    raise _UnknownForm("native comparison decides a branch in %s" % f.name)
+                walk(b["s"][0] if v else b["s"][1], depth_ + 1)
+        elif len(b["s"]) == 1:
+            walk(b["s"][0], depth_ + 1)
+        elif bid == f.cfg["exit"]:
+            raise _UnknownForm("a path of %s ends without a return" % f.name)
+        else:
+            raise _UnknownForm("block %s of %s" % (bid, f.name))
+
+    walk(f.cfg["entry"])
+    return out
+
+
+def r11_7(ctx):
+    rid = "R11.7"
+    ctx.rule(rid, "the extended comparisons agree with the order of the extended reals: each of lt_ext / le_ext / gt_ext / ge_ext / eq_ext / ne_ext / cmp_ext (checked_ext_inlines.hh) is interpreted on the 16 pairs of operand classes {NaN, -inf, finite, +inf} — is_nan / is_minf / is_pinf decided by the class, ext_to_handle followed both ways on a finite operand, calls to a sibling interpreted in turn with the arguments as passed — and must return, on every path, the answer of the extended reals with an unordered NaN (-inf < -inf is false, -inf <= -inf is true, NaN != x is true), and hand over to the comparison of the underlying type exactly when both operands are finite")
+    fx = ctx.extract([F.driver_unit("all_headers.cc", file_re=r"checked_ext_inlines\.hh")])
+    fns = {}
+    for f in fx.functions:
+        if f.flag("pattern") and f.name in EXT_CMP and len(f.params) == 2 and f.cfg:
+            fns.setdefault(f.name, f)
+    missing = sorted(set(EXT_CMP) - set(fns))
+    ctx.require(rid, not missing, "extended comparisons not found in checked_ext_inlines.hh: %s" % ", ".join(missing))
+    n = 0
+    for name in sorted(fns):
+        f = fns[name]
+        op = EXT_CMP[name]
+        px, py = [p["n"] for p in f.params]
+        bad = []
+        try:
+            for cx in _CLS:
+                for cy in _CLS:
+                    n += 1
+                    got = _ext_interpret(f, {px: cx, py: cy}, fns)
+                    want = _ext_truth(op, cx, cy)
+                    if got != {want}:
+                        bad.append((cx, cy, got, want))
+        except _UnknownForm as ex:
+            raise F.AnalysisBroken("R11.7: %s: %s — the class interpretation does not know this form" % (name, ex))
+        inst = "%s on the 16 operand classes" % name
+        if bad:
+            def show(v):
+                return {"NATIVE": "the comparison of the underlying type", "NATIVE!": "the comparison of the underlying type (on a special value)"}.get(v, str(v).lower() if isinstance(v, bool) else v)
+            for cx, cy, got, want in bad:
+                ctx.violation(rid, "%s(%s, %s)" % (name, _CLS_TXT[cx], _CLS_TXT[cy]), f.where(), "for %s = %s and %s = %s the function answers %s; the extended reals say %s" % (
+                    px, _CLS_TXT[cx], py, _CLS_TXT[cy], " or ".join(sorted(show(v) for v in got)), show(want)))
+        else:
+            ctx.ok(rid, inst, f.where())
+    ctx.count(rid, "operand class pairs interpreted", n)
+    ctx.floor(rid, n, 7 * 16, "operand class pairs interpreted")
+
+
+_POLICY_NAME = re.compile(r"^(?:(To\d*|From\d*)_Policy|Policy(\d*))$")
+
+
+def _expected_policies(f):
+    """{parameter: the policy template parameter that describes it}, from the naming convention of the checked layer:
+    a parameter of type To / From / From1 / From2 goes with To_Policy / From_Policy / ..., one of type Type1 / Type2 with
+    Policy1 / Policy2. Parameters that share the single type `Type` are paired by position: the non-const reference is the
+    destination (To_Policy), the sources follow in the order From1_Policy, From2_Policy (or From_Policy); in a function with
+    the single policy `Policy` they all go with it."""
+    exp = {}
+    shared = []
+    for p in f.params:
+        t = re.sub(r"\bconst\b|&|\s", "", p["t"])
+        if re.match(r"^(To\d*|From\d*)$", t):
+            exp[p["n"]] = t + "_Policy"
+        elif re.match(r"^Type\d+$", t):
+            exp[p["n"]] = "Policy" + t[4:]
+        elif t == "Type":
+            shared.append(p)
+    if shared:
+        pols = set()
+        for c in f.calls():
+            for t in c.get("targs", ()):
+                if _POLICY_NAME.match(t):
+                    pols.add(t)
+        if pols <= {"Policy"}:
+            for p in shared:
+                exp[p["n"]] = "Policy"
+        else:
+            src = shared
+            if "&" in shared[0]["t"] and "const" not in shared[0]["t"]:
+                exp[shared[0]["n"]] = "To_Policy"
+                src = shared[1:]
+            names = ["From1_Policy", "From2_Policy"] if pols & {"From1_Policy", "From2_Policy"} else (["From_Policy"] if "From_Policy" in pols else [])
+            for p, nm in zip(src, names):
+                exp[p["n"]] = nm
+    return exp
+
+
+def r11_8(ctx):
+    rid = "R11.8"
+    ctx.rule(rid, "an operand is looked at through its own policy: the special values of a checked operand (NaN, infinities, what an overflow does) are defined by the policy paired with it in the function's signature (To& to / To_Policy, From1& x / From1_Policy, Type2& y / Policy2, ...). Wherever a primitive of the checked layer names policies explicitly in a call — is_minf<P>(v), assign_special<P>(to, ..), lt_ext<P1, P2>(a, b), rem<To_Policy, From1_Policy, From2_Policy>(to, x, y, dir) — the i-th policy is the one of the i-th argument when that argument is a parameter of the function. A result fed back as an operand (`add_float<To_Policy, From_Policy, ..>(to, to, m, dir)`) is not judged")
+    fx = ctx.extract([F.driver_unit("all_headers.cc", file_re=r"(checked_[a-z_]+|Checked_Number_inlines)\.hh")])
+    seen = set()
+    n = fed_back = 0
+    for f in fx.functions:
+        if not f.flag("pattern") or (f.relfile, f.line) in seen:
+            continue
+        seen.add((f.relfile, f.line))
+        exp = _expected_policies(f)
+        if not exp:
+            continue
+        for c in f.calls():
+            ta = c.get("targs") or []
+            args = f.call_args(c)
+            for i, t in enumerate(ta):
+                if not _POLICY_NAME.match(t) or i >= len(args):
+                    continue
+                a = f.deref(args[i])
+                if a is None or a["k"] != "ref":
+                    continue
+                an = f.text(a).strip()
+                if an not in exp:
+                    continue
+                if exp[an] == "To_Policy" and t.startswith("From"):
+                    fed_back += 1
+                    continue
+                n += 1
+                inst = "%s: %s<%s>(%s) argument %d (line %s)" % (f.name, f.call_name(c), ", ".join(ta), ", ".join(f.text(x).strip() for x in args), i + 1, c.get("l"))
+                if exp[an] == t:
+                    ctx.ok(rid, inst, f.where(c))
+                else:
+                    ctx.violation(rid, inst, f.where(c), "`%s` is classified with `%s`, but its policy in %s is `%s`: when the two policies differ (operands of different types, or one native and one extended) its NaN / infinity encodings are read with the wrong rules" % (an, t, f.name, exp[an]))
+    ctx.count(rid, "results fed back as operands (not judged)", fed_back)
+    ctx.floor(rid, n, 600, "explicit policy / parameter pairings")
+
+
 def run(ctx):
     ctx.explanation = ("C11 discipline clauses: encodings and policies as compile-time witnesses (also with bounded coefficients), routing of every primitive's Result into the "
                        "policy, FPU rounding-mode pairing, and — thorough tier — a type-check of the whole library with bounded coefficients; the arithmetic of the primitives is not decided")
@@ -239,5 +694,8 @@ def run(ctx):
     r11_2b(ctx)
     r11_4(ctx, fx)
     r11_5(ctx)
+    r11_6(ctx)
+    r11_7(ctx)
+    r11_8(ctx)
     if ctx.tier == "thorough":
         r11_3(ctx)
